@@ -1,7 +1,7 @@
 """C05 - delegation check uses exactly the named role's keys and threshold."""
 import random
 
-from ..engines import delegation
+from ..engines import delegation, inplace
 from ..monitors import boundary
 from ..refs import models
 
@@ -19,7 +19,10 @@ ASSUMPTIONS = ["reference delegation model, schema, signer"]
 def plan(tier, seed):
     n = 900 if tier == "quick" else 22000
     shards = 10 if tier == "quick" else 16
-    return [{"kind": "deleg", "count": n // shards} for _ in range(shards)]
+    specs = [{"kind": "deleg", "count": n // shards} for _ in range(shards)]
+    for _ in range(2 if tier == "quick" else 6):
+        specs.append({"kind": "inplace", "count": 60 if tier == "quick" else 600})
+    return specs
 
 
 def judge(case, rec, lib):
@@ -45,7 +48,22 @@ def judge(case, rec, lib):
     return model, out
 
 
+def run_inplace(spec, rec, lib):
+    """one long-lived trusted dict, changed in place between calls (key rotation, threshold raise, role removal ...)"""
+    rng = random.Random(spec["seed"])
+    for i in range(spec["count"]):
+        viols = inplace.delegation_history(rng, lib, rec, "C05", steps=12)
+        rec.case("inplace|%d|%d" % (spec["seed"], i))
+        for mech, msg, case in viols:
+            if mech.startswith("argument-mutation"):
+                continue  # C12's business
+            rec.violation(mech, msg, case)
+    rec.sample({"inplace_history": "one trusted dict object mutated in place between verify_delegation calls; model judges its current content"})
+
+
 def run_shard(spec, rec, lib):
+    if spec["kind"] == "inplace":
+        return run_inplace(spec, rec, lib)
     rng = random.Random(spec["seed"])
     for i in range(spec["count"]):
         case = delegation.gen_case(rng)
@@ -61,4 +79,8 @@ def finish(merged, tier, seed):
 
 
 def replay(case, rec, lib):
+    if case.get("kind") == "inplace_deleg":
+        print("history-dependent witness (ops: %s); re-running in-place histories" % "->".join(case["ops"]))
+        run_inplace({"seed": 1, "count": 200}, rec, lib)
+        return
     judge(case, rec, lib)
